@@ -129,7 +129,7 @@ def run(prog: Program, rep, thorough: bool) -> None:
     for path, leaf in leaves(tree):
         if leaf.kind == 'raise':
             continue
-        if leaf.kind != 'fall':
+        if leaf.kind not in ('fall', 'continue'):
             problems.setdefault('exit', f'the loop body leaves by `{leaf.kind}`')
             continue
         e = leaf.state.env
@@ -192,9 +192,8 @@ def run(prog: Program, rep, thorough: bool) -> None:
             for _mp, mv_ in cond_leaves(m):
                 try:
                     mrf = ev.scalar(mv_)
-                except Undecided:
-                    ok = False
-                    continue
+                except Undecided as exc:
+                    raise AnalysisError(f'Mach argument of the drag function: {exc}') from exc
                 # the speed of sound of this step's atmosphere query (symbol a), nothing older
                 co = (mrf * A.sym('a')).symbols()
                 if 'a' in co or 'a' not in mrf.symbols():
@@ -261,20 +260,20 @@ def check_initial_state(prog: Program, rep, F: IntegrateFacts) -> None:
     ctx = Ctx(tc, None, None, 0)
     q = lambda dim, sym, unit: C.mk_quantity(ev, st, prog, dim, sym, unit)
     dm = ev.new_inst(st, prog.cls(C.M_DM, 'DragModel'), {
-        'BC': S('BC'), 'drag_table': SymObj('table'), 'length': q('Distance', 'len_raw', 'Inch'),
-        'diameter': q('Distance', 'dia_raw', 'Inch'), 'weight': q('Weight', 'wt_raw', 'Grain')})
+        'BC': S('BC'), 'drag_table': SymObj('table'), 'length': q('Distance', 'len_raw', 'Millimeter'),
+        'diameter': q('Distance', 'dia_raw', 'Centimeter'), 'weight': q('Weight', 'wt_raw', 'Gram')})
     ammo = ev.new_inst(st, prog.cls(C.M_MUN, 'Ammo'), {
-        'dm': dm, 'mv': q('Velocity', 'mv_raw', 'FPS'), 'powder_temp': q('Temperature', 'pt_raw', 'Fahrenheit'),
+        'dm': dm, 'mv': q('Velocity', 'mv_raw', 'KMH'), 'powder_temp': q('Temperature', 'pt_raw', 'Celsius'),
         'temp_modifier': S('tm'), 'use_powder_sensitivity': Const(False)})
     weapon = ev.new_inst(st, prog.cls(C.M_MUN, 'Weapon'), {
-        'sight_height': q('Distance', 'sh_raw', 'Inch'), 'twist': q('Distance', 'tw_raw', 'Inch'),
-        'zero_elevation': q('Angular', 'zero', 'Radian'), 'sight': NONE})
+        'sight_height': q('Distance', 'sh_raw', 'Centimeter'), 'twist': q('Distance', 'tw_raw', 'Millimeter'),
+        'zero_elevation': q('Angular', 'zero', 'MOA'), 'sight': NONE})
     atmo = ev.new_inst(st, prog.cls(C.M_COND, 'Atmo'), {
-        '_altitude': q('Distance', 'alt_raw', 'Foot'), '_pressure': q('Pressure', 'pr_raw', 'MmHg'),
-        '_temperature': q('Temperature', 'at_raw', 'Fahrenheit'), '_powder_temp': q('Temperature', 'apt_raw', 'Fahrenheit')})
+        '_altitude': q('Distance', 'alt_raw', 'Meter'), '_pressure': q('Pressure', 'pr_raw', 'hPa'),
+        '_temperature': q('Temperature', 'at_raw', 'Celsius'), '_powder_temp': q('Temperature', 'apt_raw', 'Kelvin')})
     shot = ev.new_inst(st, prog.cls(C.M_COND, 'Shot'), {
-        'look_angle': q('Angular', 'look', 'Radian'), 'relative_angle': q('Angular', 'rel', 'Radian'),
-        'cant_angle': q('Angular', 'cant', 'Radian'), 'weapon': weapon, 'ammo': ammo, 'atmo': atmo, '_winds': SymObj('winds')})
+        'look_angle': q('Angular', 'look', 'Degree'), 'relative_angle': q('Angular', 'rel', 'Mil'),
+        'cant_angle': q('Angular', 'cant', 'Thousandth'), 'weapon': weapon, 'ammo': ammo, 'atmo': atmo, '_winds': SymObj('winds')})
     cfg_inst = ev.new_inst(st, cfgc, {f: S(f'cfg.{f}') for f in prog.namedtuple_fields(cfgc)})
     try:
         selfv = ev.construct(tcc, [cfg_inst], {}, st, ctx)
@@ -286,8 +285,7 @@ def check_initial_state(prog: Program, rep, F: IntegrateFacts) -> None:
     h = st.heap[selfv.oid]
 
     def raw_in(dim, sym, unit):
-        qq = q(dim, sym, unit)
-        return ev.call_value(prog.find_method(qq.cls, 'get_in'), [C.enum_val(prog, unit)], self_val=qq, st=st)[0].rf
+        return C.read_raw_in(ev, prog, dim, sym, unit)
     look, rel, cant, zero = (A.sym(n) for n in ('look', 'rel', 'cant', 'zero'))
     be = look + A.fn('cos', cant) * (zero + rel)
     az = A.fn('sin', cant) * (zero + rel)
